@@ -279,6 +279,8 @@ def _gen_history(rng, space, nd, torus, bounds, cap, nops, maxagents=9):
             ops.append(["remove", a])
             del placed[a]
             removed.append(a)
+            if space == "exp" and rng.random() < 0.2:
+                ops.append(["remove", a])          # agent.remove() a second time: a no-op
         elif r < 0.58:
             # an operation on an agent that is not there (no-op / rejected, must not disturb anything)
             a = rng.choice(removed) if removed and rng.random() < 0.7 else nxt + 3
@@ -874,6 +876,7 @@ def _run_exp(case):
         for j, o in enumerate(decoy[1]):
             o.position = [float(dims_was[0][0]), float(dims_was[1][0])] + [float(d[0]) for d in dims_was[2:]]
     live = {}        # label -> agent object currently in the space (driver's own bookkeeping of what it created)
+    gone_objs = {}   # label -> the last agent object with that label that was removed
     obs = []
     ops_for_model = []
     shadow = {}
@@ -999,10 +1002,24 @@ def _run_exp(case):
             elif kind == "remove":
                 a = op[1]
                 if a not in live:
+                    if a in gone_objs:
+                        # a SECOND remove() of an agent that has left the space: a no-op (fix C02-2), no exception, nothing
+                        # changes; the model does not issue it (observation [-2])
+                        before = view(i, check=False)
+                        try:
+                            gone_objs[a].remove()
+                        except Exception as e:  # noqa: BLE001
+                            if not state["dead"]:
+                                fails.add("C10/exp/remove/second-remove-raises", i, f"agent {a}.remove() a second time raised {type(e).__name__}: {e}")
+                            state["dead"] = True
+                        if view(i, check=False) != before and not state["dead"]:
+                            fails.add("C10/exp/remove/second-remove-changed-state", i, f"agent {a}.remove() a second time changed the space: before {before}, after {view(i, check=False)}")
+                            state["dead"] = True
                     obs.append([-2])
                     ops_for_model.append(mop)
                     continue
                 o = live.pop(a)
+                gone_objs[a] = o
                 shadow.pop(a, None)
                 o.remove()
                 if not state["dead"] and (o.space is not None or o in model.agents):
@@ -1118,6 +1135,7 @@ def _run_exp(case):
             elif kind == "clear":
                 model.remove_all_agents()
                 gone = list(live.values())
+                gone_objs.update(live)
                 live.clear()
                 shadow.clear()
                 if not state["dead"] and any(o.space is not None for o in gone):
